@@ -64,6 +64,13 @@ EDITS = [
  ("setu32/iter.rs", "inline iteration: wrong width index", r"let nbits = bitsplits\[\(self\.sz - self\.sz_left\) as usize\];", "let nbits = bitsplits[(self.sz_left - 1) as usize];"),
  ("setu64/iter.rs", "plain iteration: placeholder not mapped back to 0", r"return Some\(if x == self\.bits \{ 0 \} else \{ x \}\);", "return Some(x);"),
  ("setu32/iter.rs", "plain iteration: count not decremented", r"(Internal::Big \{ a, \.\. \} => \{\s*while let[\s\S]*?)self\.sz_left -= 1;", r"\g<1>"),
+ ("setu64/iter.rs", "bitmap iteration: scan starts one bit late", r"(Internal::Heap \{ a, \.\. \} => \{[\s\S]*?)let oldbit = self\.whichbit;", r"\g<1>let oldbit = self.whichbit + 1;"),
+ ("setu64/iter.rs", "bitmap iteration: whichbit not reset on the next bucket", r"(self\.index \+= 1;\s*)self\.whichbit = 0;", r"\g<1>"),
+ ("setu64/iter.rs", "bitmap iteration: member rebuilt with the wrong key shift", r"unsplit_u64\(x >> self\.bits, oldbit, self\.bits\)", "unsplit_u64(x >> (self.bits - 1), oldbit, self.bits)"),
+ ("setu64/iter.rs", "dense iteration: word index scaled by 32", r"\(\(self\.index as u64\) << 6\) \+ bit as u64", "((self.index as u64) << 5) + bit as u64"),
+ ("setu32/iter.rs", "dense iteration: scan stops at bit 31", r"while self\.whichbit < 32 \{", "while self.whichbit < 31 {"),
+ ("setu32/iter.rs", "bitmap iteration: count not decremented", r"(Internal::Heap \{ a, \.\. \} => \{[\s\S]*?if \(x & \(1 << oldbit\)\) != 0 \{\s*)self\.sz_left -= 1;", r"\g<1>"),
+ ("setu64.rs", "unsplit", r"(fn unsplit_u64[\s\S]*?)k \* bits \+ offset", r"\g<1>k * bits + offset + 1"),
  ("setu64.rs", "BITSPLITS row", r"&\[25, 12, 12, 12\]", "&[26, 12, 12, 12]"),
  ("setu32.rs", "log_2 width", r"(fn log_2\(x: u32\)[\s\S]*?)num_bits::<u32>\(\) as u32 - x\.leading_zeros\(\)", r"\g<1>num_bits::<u32>() as u32 + 1 - x.leading_zeros()"),
  ("setu32.rs", "compute_array_bits large threshold", r"else if log_2\(mx\) > 62 \{", "else if log_2(mx) > 31 {"),
@@ -85,7 +92,7 @@ def main():
     shutil.copytree("/repo/src", W + "/repo/src")
     sh(f"rsync -a --exclude .lake/build/bin {V}/lean/ {W}/lean/")
     env = dict(os.environ, VERIF_REPO=W + "/repo", VERIF_GEN_OUT=W + "/lean/TinysetModel/Generated")
-    target = "TinysetModel.Proofs.Consts TinysetModel.Proofs.Fns TinysetModel.Proofs.Loops TinysetModel.Proofs.ContainsSrc TinysetModel.Proofs.RemoveSrc TinysetModel.Proofs.InsertSrc TinysetModel.Proofs.TinySrc TinysetModel.Proofs.Fits"
+    target = "TinysetModel.Proofs.Consts TinysetModel.Proofs.Fns TinysetModel.Proofs.Loops TinysetModel.Proofs.ContainsSrc TinysetModel.Proofs.RemoveSrc TinysetModel.Proofs.InsertSrc TinysetModel.Proofs.TinySrc TinysetModel.Proofs.IterSrc TinysetModel.Proofs.Fits"
     rc, out = sh(f"python3 {V}/tools/gen_consts.py && lake build {target}", cwd=W + "/lean", env=env)
     if rc != 0:
         print("baseline does not build:", out[-800:]); return 2
